@@ -418,7 +418,7 @@ func TestC14ExhaustiveReal(t *testing.T) {
 	P := vh.SegmentMaxPayloadSize()
 	cases := exhaustiveCases(P, e.Pick(8, 9), false)
 	meta := vrun.Meta{Property: "C14", Workload: "TestC14ExhaustiveReal", Total: len(cases), Exhaustive: true,
-		Rule: "the library's real payload size (1188 bytes), T=" + fmt.Sprint(e.Pick(8, 9)) + "; single messages: smallest, smallest+1, middle, largest length for each of 1..6 segments. " + ruleExhaustive,
+		Rule:        "the library's real payload size (1188 bytes), T=" + fmt.Sprint(e.Pick(8, 9)) + "; single messages: smallest, smallest+1, middle, largest length for each of 1..6 segments. " + ruleExhaustive,
 		Assumptions: assumeCommon}
 	vrun.Loop(t, meta, exhaustivePar, func(c *vrun.Case) vrun.Result {
 		if P != realPayload {
@@ -434,7 +434,7 @@ func TestC14ExhaustiveReal(t *testing.T) {
 
 func TestC14Sampled(t *testing.T) {
 	e := vrun.LoadEnv()
-	total := e.Pick(400, 4000)
+	total := e.Pick(1000, 20000)
 	payloadSizes := []int{1, 2, 3, 4, 5, 7, 8, 16, 64, 255, realPayload}
 	meta := vrun.Meta{Property: "C14", Workload: "TestC14Sampled", Total: total,
 		Rule: "Case = payload size from {1,2,3,4,5,7,8,16,64,255,1188(real)} (cases run sequentially because the override is a package variable), 1..5 messages with lengths from the classes " +
@@ -510,7 +510,7 @@ func TestC14Sampled(t *testing.T) {
 			classes = append(classes, cl)
 			m, err := split(seq+uint32(i)*stride, randBytes(r, l))
 			if err != nil {
-				return vrun.Violation("SendTo refuses a message within the segment limit", "sender:refuses-message-within-limit:"+cl, map[string]any{"len": l, "payload_size": P, "err": err.Error()})
+				return vrun.Violation("SendTo refuses a message within the segment limit", "sender:refuses-message-within-limit", map[string]any{"len": l, "payload_size": P, "err": err.Error()})
 			}
 			msgs[i] = m
 		}
@@ -715,10 +715,10 @@ func TestC14Oversize(t *testing.T) {
 		m, err := split(seq, data)
 		w := map[string]any{"payload_size": oc.P, "len": l, "class": oc.name, "datagrams_emitted": len(m.segs), "err": fmt.Sprint(err)}
 		if err == nil && oc.must == "refuse" {
-			return vrun.Violation("a message needing more than 65536 segments is accepted by SendTo", "oversize:accepted:"+oc.name, w)
+			return vrun.Violation("a message needing more than 65536 segments is accepted by SendTo", "oversize:accepted-by-SendTo", w)
 		}
 		if err != nil && oc.must == "accept" {
-			return vrun.Violation("a message within the 65535-segment limit is refused by SendTo", "oversize:refuses-message-within-limit:"+oc.name, w)
+			return vrun.Violation("a message within the 65535-segment limit is refused by SendTo", "oversize:refuses-message-within-limit", w)
 		}
 		rb := newBuffers(10 * time.Second)
 		var st feedStats
@@ -1114,11 +1114,11 @@ func TestC14MalformedShort(t *testing.T) {
 // in flight, mixed into the arrival of genuine messages; plus duplicates (not judged).
 func TestC14Malformed(t *testing.T) {
 	e := vrun.LoadEnv()
-	total := e.Pick(600, 6000)
+	total := e.Pick(1500, 20000)
 	meta := vrun.Meta{Property: "C14", Workload: "TestC14Malformed", Total: total,
 		Rule: "Case = 1..3 genuine messages (real payload size, 1..6 segments, seq below 2^31) whose shuffled segments are interleaved with 1..40 bad datagrams using sequence numbers >= 2^31: " +
 			"'index beyond the announced count' (idx > maxIdx, all combinations of small/boundary values), 'count changing between segments of one sequence number', random bytes of length 8..64 (random header fields, own garbage sequence number), " +
-			"and (class dup, not judged for delivery) duplicated genuine segments at the end. Judged: no Receive call panics; a datagram whose index exceeds its own announced count is never handed up; " +
+			"(class dup, not judged for delivery) duplicated genuine segments at the end, and 40 datagrams of arbitrary bytes (8..1407 bytes, half of them with small header fields) on a buffer of their own (no panic). Judged: no Receive call panics; a datagram whose index exceeds its own announced count is never handed up; " +
 			"every genuine message is handed up byte-exact by exactly the call that brings its last segment. Non-trivial: at least one bad datagram was given to Receive while a genuine multi-segment message was half received, and that message completed exactly; " +
 			"distinct: (bad classes, genuine segment counts).",
 		Assumptions: append([]string{
@@ -1256,6 +1256,24 @@ func TestC14Malformed(t *testing.T) {
 				dupHanded++
 			}
 		}
+		// arbitrary bytes with nothing forced, on a buffer of their own: only "no panic" can be judged
+		rb2 := newBuffers(10 * time.Second)
+		const nRandom = 40
+		for i := 0; i < nRandom; i++ {
+			n := 8 + r.Intn(24)
+			if r.Intn(4) == 0 {
+				n = 8 + r.Intn(1400)
+			}
+			d := randBytes(r, n)
+			if r.Intn(2) == 0 { // small header fields so that buffers get reused and completed
+				d[0], d[1], d[2], d[3], d[4], d[6] = 0, 0, 0, byte(r.Intn(3)), 0, 0
+				d[5], d[7] = byte(r.Intn(4)), byte(r.Intn(4))
+			}
+			if _, _, _, pan := recvSafe(rb2, d); pan != nil {
+				return vrun.Violation("Receive panics on arbitrary datagram bytes", "malformed:random-bytes:Receive-panics", map[string]any{"datagram": hx(d), "panic": fmt.Sprint(pan)})
+			}
+		}
+		rb2.RemoveExpired()
 		var cl []string
 		for k := range classes {
 			cl = append(cl, k)
@@ -1274,6 +1292,7 @@ func TestC14Malformed(t *testing.T) {
 		res.Stat("genuine_messages_handed_up_exact", st.handed)
 		res.Stat("handed_up_from_garbage_sequence_numbers(not judged)", badHandedUnjudged)
 		res.Stat("duplicates_fed(no panic)", 6)
+		res.Stat("arbitrary_byte_datagrams_fed(no panic)", nRandom)
 		res.Stat("handed_up_on_duplicate(not judged)", dupHanded)
 		res.AddSet("bad_class", cl...)
 		return res
